@@ -92,6 +92,7 @@ type Ctx struct {
 	failures  []string
 	start     time.Time
 	curKind   string
+	replaying bool // true while a saved case (--replay or committed regression) is executed
 }
 
 func envInt(name string, def int) int {
@@ -370,6 +371,8 @@ func replayOne[C any](c *Ctx, t *testing.T, kind string, raw json.RawMessage, ch
 		t.Fatalf("%s: cannot decode case of kind %s: %v", origin, kind, err)
 	}
 	c.curKind = kind
+	c.replaying = true
+	defer func() { c.replaying = false }()
 	c.Eval()
 	c.Label("replayed:" + kind)
 	f := guard(func() *Failure { return check(c, cs) })
